@@ -406,6 +406,13 @@ def gen_dataset(rng, mode=frozenset(), small=False):
         if rng.random() < 0.3:
             sub = gen_attrs(rng, 3, "short" in mode)
             attrs[g] = {k: v for k, v in sub.items()}
+    if "big" in mode:
+        # a DAS of tens of kilobytes (metadata-rich files have them): several hundred plain attributes, each with its
+        # own value, on the dataset and on every top-level variable
+        targets = [attrs] + [c["attrs"] for c in cs]
+        for i in range(rng.randint(400, 700)):
+            t = targets[i % len(targets)]
+            t["big_%03d" % i] = [i, float(i) + 0.5, "value-%05d-of-a-long-attribute-table" % i][i % 3]
     return {"name": dsname, "attrs": attrs, "children": cs}
 
 
@@ -1081,6 +1088,9 @@ def explore(ctx, P, tier, search=False):
     rng = ctx.rng("domain")
     for i in range(n):
         served_case(ctx, P, gen_dataset(rng, small=(i % 3 == 0)), "domain", pr, pa, at, rt)
+    rng = ctx.rng("big")
+    for i in range(2 if n < 200 else 12):
+        served_case(ctx, P, gen_dataset(rng, mode={"big"}, small=True), "domain", pr, pa, at, rt, do_shrink=False)
     # (b) lists shorter than two, (c) attributes named like a child / like the dataset
     rng = ctx.rng("short")
     for i in range(n // 6):
